@@ -25,6 +25,26 @@ async def _probe(tbl, idx, raw, lo, hi, other):
     return shown, smin, smax, sent
 
 
+async def _accept(tbl, idx, w, blo, bhi, held):
+    """is the displayed form of raw value w accepted by a parameter held with raw bounds [blo, bhi]?  -> transmitted raws / 'refused'"""
+    import asyncio
+    src, *_ = param_impl.make_param(tbl, idx, [w, 0, 65535], True, 0)
+    shown = src.value
+    q, queue2, sc2, rc2, dec2 = param_impl.make_param(tbl, idx, [held, blo, bhi], True, 0)
+    task = asyncio.ensure_future(q.set(shown, retries=1, timeout=1.0))
+    for _ in range(6):
+        await asyncio.sleep(0)
+    outs = param_impl.drain(queue2, sc2, rc2, dec2)
+    refused = task.done() and not task.cancelled() and isinstance(task.exception(), ValueError)
+    task.cancel()
+    try:
+        await task
+    except BaseException:  # noqa: BLE001
+        pass
+    sent = [o[1] for o in outs if o[0] == 0]
+    return "refused" if refused and not sent else sent
+
+
 class C17(Prop):
     id = "C17"
     prop_file = "Props/C17.v"
@@ -54,14 +74,22 @@ class C17(Prop):
                 else:
                     raws = sorted(set([0, 1, 2, 127, 128, 254, 255] + [rng.randrange(256) for _ in range(6)]))
                 for raw in raws:
+                    # acceptance clause: raw bounds [blo, bhi] from the interesting values of the width, w inside or just outside
+                    marks = [0, 1, 100, 254, 255] + ([256, 257, 511, 32767, 32768, hi - 1, hi] if d["size"] == 2 else [])
+                    blo, bhi = sorted([rng.choice(marks), rng.choice(marks)])
+                    w = rng.choice([raw, blo, bhi, max(0, blo - 1), min(hi, bhi + 1), rng.randrange(hi + 1)])
                     cases.append({"kind": "%s:%s" % (name, "scaled" if scaled else "plain"), "tbl": tbl, "idx": idx, "raw": raw,
-                                  "lo": rng.choice([0, raw]), "hi": rng.choice([hi, raw]), "other": (raw + 1) % (hi + 1)})
+                                  "lo": rng.choice([0, raw]), "hi": rng.choice([hi, raw]), "other": (raw + 1) % (hi + 1),
+                                  "acc": [w, blo, bhi, (w + 1) % (hi + 1)]})   # held value differs from the request
         return cases
 
     def run_impl(self, c):
         shown, smin, smax, sent = vloop.run(_probe, c["tbl"], c["idx"], c["raw"], c["lo"], c["hi"], c["other"])
-        return {"display": coqeval.float_key(float(shown)), "min": coqeval.float_key(float(smin)),
-                "max": coqeval.float_key(float(smax)), "sent": sent}
+        out = {"display": coqeval.float_key(float(shown)), "min": coqeval.float_key(float(smin)),
+               "max": coqeval.float_key(float(smax)), "sent": sent}
+        if "acc" in c:
+            out["accept"] = vloop.run(_accept, c["tbl"], c["idx"], *c["acc"])
+        return out
 
     def model_many(self, cases):
         ex = []
@@ -69,21 +97,27 @@ class C17(Prop):
             ex.append(f"fe_display {c['tbl']} {c['idx']} {c['raw']}")
             ex.append(f"fe_display {c['tbl']} {c['idx']} {c['lo']}")
             ex.append(f"fe_display {c['tbl']} {c['idx']} {c['hi']}")
+            ex.append(f"fe_display {c['tbl']} {c['idx']} {c.get('acc', [c['raw']])[0]}")
         disp = coqeval.eval_many(ex, "C17a", chunk=900)
         # write back the model's own displayed value
         ex2 = []
         for i, c in enumerate(cases):
-            d = disp[3 * i]
-            x = (-1 if d[1] else 1) * d[2] * 2.0 ** d[3] if d[2] else 0.0
-            ex2.append(f"fe_to_raw {c['tbl']} {c['idx']} {coqeval.float_lit(x)}")
+            for d in (disp[4 * i], disp[4 * i + 3]):
+                x = (-1 if d[1] else 1) * d[2] * 2.0 ** d[3] if d[2] else 0.0
+                ex2.append(f"fe_to_raw {c['tbl']} {c['idx']} {coqeval.float_lit(x)}")
         back = coqeval.eval_many(ex2, "C17b", chunk=900)
         out = []
         for i, c in enumerate(cases):
-            d, lo, hi, b = disp[3 * i], disp[3 * i + 1], disp[3 * i + 2], back[i]
-            if not (d[0] and lo[0] and hi[0] and b[0]):
+            d, lo, hi, b, bw = disp[4 * i], disp[4 * i + 1], disp[4 * i + 2], back[2 * i], back[2 * i + 1]
+            if not (d[0] and lo[0] and hi[0] and b[0] and bw[0]):
                 out.append({"error": "model:None"})
             else:
-                out.append({"display": d[1:], "min": lo[1:], "max": hi[1:], "sent": [b[1]]})
+                o = {"display": d[1:], "min": lo[1:], "max": hi[1:], "sent": [b[1]]}
+                if "acc" in c:
+                    # the model's set(): the raw value of the displayed form, transmitted iff within the held raw bounds
+                    w, blo, bhi, _ = c["acc"]
+                    o["accept"] = [bw[1]] if blo <= bw[1] <= bhi else "refused"
+                out.append(o)
         return out
 
     def obs(self, c, b):
@@ -91,7 +125,15 @@ class C17(Prop):
 
     def spec_many(self, cases, behaviours):
         # functional property: what is transmitted for the displayed value is the raw value itself
-        return [b["sent"] == [c["raw"]] for c, b in zip(cases, behaviours)]
+        # ... and the displayed form of a raw value is accepted exactly when the raw value lies within the held raw bounds
+        out = []
+        for c, b in zip(cases, behaviours):
+            ok = b["sent"] == [c["raw"]]
+            if "acc" in c:
+                w, blo, bhi, _ = c["acc"]
+                ok = ok and b.get("accept") == ([w] if blo <= w <= bhi else "refused")
+            out.append(ok)
+        return out
 
     def nontrivial_key(self, c, mb):
         return (c["tbl"], c["idx"], c["raw"]) if (c["raw"] > 0 or "scaled" in c["kind"]) else None
